@@ -132,6 +132,7 @@ class PairTabulationFactory(object):
 
     # Get pair potentials
     potential_form_registry = Potential_Form_Registry(cp, register_standard = True, register_pymath_functions = True)
+    potential_form_registry.parse_expressions()
     modifier_registry = Modifier_Registry()
     
     potobjs = self.extract_potential_objects(cp, potential_form_registry, modifier_registry)
